@@ -649,6 +649,26 @@ def c_implicit(spec, seed, par):
             out["impossible"] = dict(ImplicitDistribution(func, n_samples=n, _seed=seed).condition(lambda e: False).items())
         except ValueError as e:
             out["impossible"] = "ValueError"
+        # relations that must hold INSIDE one run (each pair must be equal): the history of the base object and of its
+        # other derived distributions must not reach a derived distribution; an explicitly supplied generator decides
+        base = ImplicitDistribution(func, n_samples=n, _seed=seed)
+        proj, pred = (lambda e: e[0]), (lambda e: e[1] != 2)
+        m1 = _guard(lambda: dict(base.marginalize(proj).items()))
+        m2 = _guard(lambda: dict(base.marginalize(proj).items()))               # the same derivation a second time
+        c1 = _guard(lambda: dict(base.condition(pred).items()))
+        used = ImplicitDistribution(func, n_samples=n, _seed=seed)
+        [used.sample() for _ in range(3)]                                        # the base was drawn from before deriving
+        m3 = _guard(lambda: dict(used.marginalize(proj).items()))
+        c3 = _guard(lambda: dict(used.condition(pred).items()))
+        g1 = [base.marginalize(proj).sample(rng=_random.Random(seed + 5)) for _ in range(2)]
+        g2 = [ImplicitDistribution(func, n_samples=n, _seed=seed + 1).marginalize(proj).sample(rng=_random.Random(seed + 5)) for _ in range(2)]
+        s1 = [ImplicitDistribution(func, n_samples=n, _seed=seed).sample(rng=_random.Random(seed + 6)) for _ in range(2)]
+        out["__must_equal__"] = [["same marginal derived twice from one base", m1, m2],
+                                 ["marginal of a base that was drawn from before", m1, m3],
+                                 ["conditional of a base that was drawn from before", c1, c3],
+                                 ["derived.sample(rng=g) with equally seeded g, repeated", g1[0], g1[1]],
+                                 ["derived.sample(rng=g) does not depend on the base's seed", g1, g2],
+                                 ["base.sample(rng=g) with equally seeded g, repeated", s1[0], s1[1]]]
         # the finite distributions' sample(): single-element early return, k > 1, list / keys-view supports
         g = _random.Random(seed)
         dd = DictDistribution({w: (i + 1) / sum(range(1, len(words) + 1)) for i, w in enumerate(words)})
@@ -734,7 +754,26 @@ COMPONENTS = {"laostar": c_laostar, "lrtdp": c_lrtdp, "astar": c_astar, "bfs": c
               "mdp_rollout": c_mdp_rollout, "pomdp_rollout": c_pomdp_rollout}
 
 
+def _guard(thunk):
+    try:
+        return thunk()
+    except ValueError:
+        return "ValueError"
+
+
 def render(val):
+    failures = []
+    if isinstance(val, dict) and "__must_equal__" in val:
+        val = dict(val)
+        for label, x, y in val.pop("__must_equal__"):
+            if digest(canon(x)) != digest(canon(y)):
+                failures.append({"relation": label, "left": json.dumps(canon(x))[:300], "right": json.dumps(canon(y))[:300]})
+    r = render_(val)
+    r["relation_failures"] = failures
+    return r
+
+
+def render_(val):
     c = canon(val)
     r = {"digest": digest(c), "ordered_digest": digest(canon(val, ordered=True))}
     txt = json.dumps(c, sort_keys=True)
